@@ -137,7 +137,8 @@ def diff(a, b, *, roots=("cirq",), ignore=(), normalize=None, rtol=0.0, type_mis
     """
     normalize = normalize or {}
     out = []
-    seen = set()
+    seen = set()   # pairs (id, id) already compared; only objects that stay alive for the whole call may be entered
+    keep = []      # temporaries whose ids are in `seen` are kept alive here (a freed object's id can be reused)
     ignore = set(ignore)
 
     def opened(o):
@@ -185,7 +186,9 @@ def diff(a, b, *, roots=("cirq",), ignore=(), normalize=None, rtol=0.0, type_mis
                 if xa.shape != ya.shape:
                     report()
                     return
-                for i, (p, q) in enumerate(zip(xa.ravel().tolist(), ya.ravel().tolist())):
+                lx, ly = xa.ravel().tolist(), ya.ravel().tolist()
+                keep.append((lx, ly))
+                for i, (p, q) in enumerate(zip(lx, ly)):
                     rec(p, q, owner, field, path + "[%d]" % i, depth + 1)
                 return
             if xa.shape != ya.shape:
@@ -314,6 +317,7 @@ def diff(a, b, *, roots=("cirq",), ignore=(), normalize=None, rtol=0.0, type_mis
                     nx_, ny_ = normalize[cname](x), normalize[cname](y)
                 except Exception:
                     return
+                keep.append((nx_, ny_))
                 rec(nx_, ny_, cname, "<value>", path + "<normalized>", depth + 1)
                 return
             ax, ay = _attrs(x), _attrs(y)
